@@ -11,10 +11,10 @@ from harness.build import build, SkipInput
 from harness.project import obs_graph, auto_taken
 
 
-def explore(g, tid=0, max_events=4000, mode='auto', with_conn=True, seed=0):
+def explore(g, tid=0, max_events=4000, mode='auto', with_conn=True, seed=0, staged=False):
     """Returns a trace dict {tid, g, ev, trunc, mode} or {'skip': reason}."""
     try:
-        b = build(g)
+        b = build(g, staged=staged)
     except SkipInput as e:
         return {'tid': tid, 'skip': str(e)}
     except Exception as e:
@@ -95,7 +95,8 @@ EMPTY_OBS = {'nodes': [], 'sel_left': [], 'cc_left': [], 'feasible': False, 'fin
 
 def auto_taken_init(b, d):
     # initialize_choices ends with resolve_single_selection_choices, which leaves its record on the class
-    return auto_taken(b, d)
+    first = getattr(b, 'auto_first', [])
+    return first + [a for a in auto_taken(b, d) if a not in first]
 
 
 def conn_event(b, d, pid, cn, counter, rng, max_sets=60, box_limit=300):
